@@ -329,7 +329,7 @@ func writeDigests(root, path string) {
 			}
 			var b bytes.Buffer
 			printer.Fprint(&b, token.NewFileSet(), fd)
-			out[name] = fmt.Sprintf("%x", sha256.Sum256(b.Bytes()))
+			out[n+":"+name] = fmt.Sprintf("%x", sha256.Sum256(b.Bytes()))
 		}
 	}
 	js, _ := json.MarshalIndent(out, "", " ")
